@@ -525,4 +525,199 @@ Proof.
     (repeat split; auto; intros Hr; destruct Hcase as [(Hok & _)|(_ & ->)]; [congruence|];
      destruct s; cbn in *; congruence).
 Qed.
+
+(* ================================================================ Part C *)
+Notation refused_sound := (refused_sound L leqb).
+Notation trailing := (trailing L).
+
+Lemma label_slot_unique (sl : list (option (nat * L))) : forall i j pi pj,
+  NoDup (map snd (filter_some sl)) -> nth i sl None = Some pi -> nth j sl None = Some pj ->
+  snd pi = snd pj -> i = j.
+Proof.
+  induction sl as [|o r IH]; intros i j pi pj Hnd Hi Hj Hl.
+  - destruct i; discriminate.
+  - assert (Hr : NoDup (map snd (filter_some r))).
+    { destruct o; cbn [filter_some map] in Hnd; [inversion Hnd|]; assumption. }
+    destruct i as [|i], j as [|j]; cbn [nth] in Hi, Hj.
+    + reflexivity.
+    + subst o. cbn [filter_some map] in Hnd. inversion Hnd as [|? ? Hnotin _]; subst.
+      exfalso. apply Hnotin. rewrite Hl. apply in_map. apply In_fs_nth. exists j; assumption.
+    + subst o. cbn [filter_some map] in Hnd. inversion Hnd as [|? ? Hnotin _]; subst.
+      exfalso. apply Hnotin. rewrite <- Hl. apply in_map. apply In_fs_nth. exists i; assumption.
+    + f_equal. eapply IH; eassumption.
+Qed.
+
+Lemma labels_of_In (af : fw) ids : forall ls l,
+  labels_of L af ids = Some ls -> In l ls -> exists i, In i ids /\ label_of L af i = Some l.
+Proof.
+  induction ids as [|i r IH]; intros ls l H Hin; cbn [labels_of] in H.
+  - injection H as <-. destruct Hin.
+  - destruct (label_of L af i) as [li|] eqn:Ei; [|discriminate].
+    destruct (labels_of L af r) as [lr|] eqn:Er; [|discriminate]. injection H as <-.
+    destruct Hin as [<-|Hin].
+    + exists i. split; [left; reflexivity|assumption].
+    + destruct (IH lr l eq_refl Hin) as (j & Hj & Hl). exists j. split; [right; assumption|assumption].
+Qed.
+
+Lemma lmem_In l ls : lmem L leqb l ls = true -> In l ls.
+Proof.
+  unfold lmem. rewrite existsb_exists. intros (x & Hx & Hl). apply leqb_spec in Hl. subst x. exact Hx.
+Qed.
+
+Lemma trues_In (af : fw) v i : In i (trues L af v) -> nth i v false = true.
+Proof. unfold trues. rewrite filter_In, andb_true_iff. tauto. Qed.
+
+Lemma neg_bools_nth size cur i : nth i (map negb (bools_of size cur)) false = true -> ~ In i cur.
+Proof.
+  unfold bools_of. rewrite map_map. intros H Hin.
+  destruct (Nat.lt_ge_cases i size) as [Hlt|Hge].
+  - rewrite (nth_indep _ false ((fun x => negb (memb x cur)) 0)) in H
+      by (rewrite map_length, seq_length; exact Hlt).
+    rewrite (map_nth (fun x => negb (memb x cur))) in H. rewrite seq_nth in H by exact Hlt.
+    cbn [Nat.add] in H. apply negb_true_iff in H. unfold memb in H.
+    assert (T : existsb (Nat.eqb i) cur = true) by (apply existsb_eqb_In; exact Hin). congruence.
+  - rewrite nth_overflow in H by (rewrite map_length, seq_length; exact Hge). discriminate.
+Qed.
+
+(* the loop of the dynamic preferred solver: whenever it returns a counter-example extension, the
+   "refused" flags it returns are raised only for ids outside that extension (what D10 violated) *)
+Lemma pr_loop_refused oracle fuel (af : fw) e arg_id : forall k fm in_all missing,
+  okm (pr_loop oracle L fuel af e arg_id k fm in_all missing)
+      (fun res => forall x, snd res = Some x -> forall i, nth i (snd (fst res)) false = true -> ~ In i x).
+Proof.
+  induction fuel as [|f IH]; intros k fm in_all missing; cbn [pr_loop]; [apply okm_oof|].
+  apply okm_bind_any. intros k'. destruct (k_state k').
+  - destruct (negb _).
+    + apply okm_ret. cbn [fst snd]. intros x Hx i Hi. injection Hx as <-. eapply neg_bools_nth; eassumption.
+    + apply IH.
+  - destruct (memb arg_id (k_cur k')); [apply okm_bind_any; intros _|]; apply IH.
+  - apply IH.
+  - apply okm_ret. cbn [snd]. discriminate.
+  - apply IH.
+Qed.
+
+(* the event a preferred query appends is sound for the framework it was computed on *)
+Definition pr_pushed (s : dsolver) (r : dsolver * answer_t) : Prop :=
+  fst r = s \/
+  exists af buf ev, encoded (s_af L s) (s_buf L s) (af, buf) /\ is_update_ev L ev = false /\
+    fst r = {| s_kind := s_kind L s; s_af := af; s_buf := buf_push L buf ev |} /\
+    (Inv L af -> refused_sound af ev).
+
+Lemma pr_ds_query_pushed oracle fuel s l : okm (pr_ds_query oracle L leqb fuel s l) (pr_pushed s).
+Proof.
+  unfold pr_ds_query.
+  destruct (is_skep L leqb (s_buf L s) l) as [[b|] [e|]];
+    try (apply okm_ret; left; reflexivity).
+  all: eapply okm_bind; [apply update_encoding_spec|]; intros [af buf] Henc;
+    destruct (b_enc L buf); [|apply okm_panic];
+    apply okm_bind_any; intros nv; apply okm_bind_any; intros arg_id;
+    (eapply okm_bind; [apply pr_loop_refused|]);
+    intros [[[[k result] acc_b] ref_b] ext] Hloop; cbn [fst snd] in Hloop;
+    apply okm_bind_any; intros acc;
+    (eapply okm_bind; [apply (okm_opt_m _ (fun refused => labels_of L af (trues L af ref_b) = Some refused)); auto|]);
+    intros refused Href; apply okm_bind_any; intros _;
+    apply okm_ret; right; exists af, buf, (DSkep L acc refused ext);
+    (split; [exact Henc|]); (split; [reflexivity|]); (split; [reflexivity|]);
+    intros Hinv; destruct ext as [x|]; cbn [DynDefs.refused_sound]; [|exact I];
+    intros l0 id Hmem Hget Hin;
+    apply lmem_In in Hmem;
+    destruct (labels_of_In af _ _ _ Href Hmem) as (i & Hi & Hlab);
+    apply trues_In in Hi;
+    assert (Hii : i = id);
+    [ unfold label_of in Hlab; destruct (nth i (slots (ls af)) None) as [[i' l']|] eqn:Ei; [|discriminate];
+      injection Hlab as ->;
+      pose proof (find_label_Some L leqb leqb_spec af l0 id Hinv Hget) as Hid;
+      exact (label_slot_unique _ _ _ _ _ (inv_lab L af Hinv) Ei Hid eq_refl)
+    | subst i; exact (Hloop x eq_refl id Hi Hin) ].
+Qed.
+
+Definition cache_inv (s : dsolver) : Prop :=
+  (forall ev, In ev (trailing (s_buf L s)) -> refused_sound (s_af L s) ev) /\
+  (trailing (s_buf L s) <> [] -> forall ev, In ev (pending (s_buf L s)) -> is_update_ev L ev = false).
+
+Lemma trailing_snoc (buffer : list devent) ev :
+  trailing_rev L (rev (buffer ++ [ev])) =
+  if is_update_ev L ev then [] else ev :: trailing_rev L (rev buffer).
+Proof. rewrite rev_unit. reflexivity. Qed.
+
+Lemma fold_no_update (evs : list devent) : forall af,
+  (forall ev, In ev evs -> is_update_ev L ev = false) -> fold_left ev_apply evs af = af.
+Proof.
+  induction evs as [|ev r IH]; intros af H; cbn [fold_left]; [reflexivity|].
+  assert (He : ev_apply af ev = af).
+  { pose proof (H ev (or_introl eq_refl)) as Hu. destruct ev; try discriminate Hu; reflexivity. }
+  rewrite He. apply IH. intros ev' Hin. apply H. right; exact Hin.
+Qed.
+
+Lemma skep_scan_hit (rb : list devent) l b ext :
+  skep_scan L leqb rb l = (Some b, Some ext) ->
+  b = false /\ exists ev, In ev (trailing_rev L rb) /\
+    exists acc refused, (ev = DSkep L acc refused (Some ext) \/ ev = DCred L acc refused (Some ext)) /\
+                        lmem L leqb l refused = true.
+Proof.
+  induction rb as [|ev r IH]; cbn [skep_scan]; [discriminate|].
+  destruct ev as [x|x|x y|x y|acc refused e|acc refused e]; try discriminate; cbn [trailing_rev is_update_ev].
+  - destruct e as [e|].
+    + destruct (lmem L leqb l refused) eqn:Em.
+      * intros H. injection H as <- <-. split; [reflexivity|].
+        exists (DCred L acc refused (Some e)). split; [left; reflexivity|]. exists acc, refused. auto.
+      * intros H. destruct (IH H) as (Hb & ev & Hin & Hev). split; [exact Hb|]. exists ev. split; [right; exact Hin|exact Hev].
+    + intros H. destruct (IH H) as (Hb & ev & Hin & Hev). split; [exact Hb|]. exists ev. split; [right; exact Hin|exact Hev].
+  - destruct (lmem L leqb l acc); [discriminate|]. destruct e as [e|].
+    + destruct (lmem L leqb l refused) eqn:Em.
+      * intros H. injection H as <- <-. split; [reflexivity|].
+        exists (DSkep L acc refused (Some e)). split; [left; reflexivity|]. exists acc, refused. auto.
+      * intros H. destruct (IH H) as (Hb & ev & Hin & Hev). split; [exact Hb|]. exists ev. split; [right; exact Hin|exact Hev].
+    + intros H. destruct (IH H) as (Hb & ev & Hin & Hev). split; [exact Hb|]. exists ev. split; [right; exact Hin|exact Hev].
+Qed.
+
+Lemma dyn_query_pr_pushed oracle thr fuel s q cert l :
+  s_kind L s = KPr -> okm (dyn_query oracle L leqb thr fuel s q cert l) (pr_pushed s).
+Proof.
+  intros Hk. unfold dyn_query. rewrite Hk. destruct q; try apply okm_panic.
+  eapply okm_bind; [apply pr_ds_query_pushed|]. intros r Hr. apply okm_ret. exact Hr.
+Qed.
+
+Lemma pr_cache_inv_reach k s os : reach k s os -> k = KPr -> cache_inv s.
+Proof.
+  induction 1 as [ps ps' s Hn|s os o Hr IH|s os oracle thr fuel q cert l ps ps' s' a Hr IH Hq]; intros ->.
+  - unfold dyn_new in Hn. apply bind_Done in Hn. destruct Hn as (u & ps1 & _ & Hn).
+    unfold ret in Hn. injection Hn as <- _. split; cbn [s_buf s_af]; unfold DynDefs.trailing; cbn; [tauto|congruence].
+  - specialize (IH eq_refl). pose proof (reach_frame_inv _ _ _ Hr) as [Hk _ _ _].
+    unfold dyn_update. rewrite Hk. pose proof (buf_update_spec (s_buf L s) o) as Hb. cbv zeta in Hb.
+    destruct Hb as (_ & _ & _ & _ & Hcase).
+    destruct (buf_update L leqb (s_buf L s) o) as [b r]. cbn [fst snd] in *.
+    destruct Hcase as [(_ & ev & Hev & Hbf & _)|(_ & ->)]; [|exact IH].
+    unfold cache_inv, DynDefs.trailing. cbn [s_buf s_af]. rewrite Hbf, trailing_snoc, Hev.
+    split; [intros ev' []|congruence].
+  - specialize (IH eq_refl). pose proof (reach_frame_inv _ _ _ Hr) as [Hk Hn Hs Hf].
+    pose proof (dyn_query_pr_pushed _ _ _ _ _ _ _ Hk _ _ _ Hq) as Hp. unfold pr_pushed in Hp. cbn [fst] in Hp.
+    destruct Hp as [->|(af & buf & ev & Henc & Hev & -> & Hsound)]; [exact IH|].
+    destruct Henc as (H1 & H2 & H3 & H4 & _). cbn [fst snd] in *.
+    assert (Hsy : fold_left ev_apply (pending (s_buf L s)) (s_af L s) = run_ops fresh_fw os).
+    { unfold DynDefs.synced in Hs. unfold DynDefs.spec_fw in Hf. rewrite Hk in Hs, Hf. congruence. }
+    destruct IH as [IH1 IH2].
+    unfold cache_inv, DynDefs.trailing, DynDefs.pending, buf_push, buf_with. cbn [s_buf s_af b_buffer b_next].
+    rewrite H2, trailing_snoc, Hev. split.
+    + intros ev' [<-|Hin].
+      * apply Hsound. rewrite H1, Hsy. apply fresh_inv.
+      * assert (Hne : trailing (s_buf L s) <> []).
+        { unfold DynDefs.trailing. intros E. rewrite E in Hin. destruct Hin. }
+        rewrite H1, (fold_no_update _ _ (IH2 Hne)). apply IH1. exact Hin.
+    + intros _ ev'. rewrite H3, skipn_app, skipn_all, Nat.sub_diag. cbn [skipn app].
+      intros [<-|[]]. exact Hev.
+Qed.
+
+(* the cache of the dynamic preferred solver: in every reachable state, whatever the history and
+   whatever the SAT solver answered, a certificate served from the cache for argument l is a NO
+   certificate that does not contain l *)
+Theorem pr_cache_sound s os l b ext :
+  reach KPr s os -> is_skep L leqb (s_buf L s) l = (Some b, Some ext) ->
+  b = false /\ forall id, get_argument (s_af L s) l = Some id -> ~ In id ext.
+Proof.
+  intros Hr Hhit. destruct (pr_cache_inv_reach _ _ _ Hr eq_refl) as [Hc _].
+  unfold is_skep in Hhit. destruct (skep_scan_hit _ _ _ _ Hhit) as (Hb & ev & Hin & acc & refused & Hev & Hmem).
+  split; [exact Hb|]. intros id Hget. specialize (Hc ev Hin).
+  destruct Hev as [->| ->]; cbn [DynDefs.refused_sound] in Hc; exact (Hc l id Hmem Hget).
+Qed.
 End DynProofs.
